@@ -66,6 +66,40 @@ fn gamma(a: f64) -> f64 {
     }
 }
 
+/// Principal branch of the Lambert W function by Halley's iteration, run until
+/// it converges (at most 64 steps).
+fn lambert_w(x: f64) -> f64 {
+    if x.is_nan() || x == f64::INFINITY || x == 0.0 {
+        return x;
+    }
+    // Starting point: ln x - ln ln x for large x, the series around the branch
+    // point -1/e near it, ln(1 + x) in between.
+    let mut w = if x > 3.0 {
+        let l = x.ln();
+        l - l.ln()
+    } else if x < -0.25 {
+        let p = (2.0 * (std::f64::consts::E * x + 1.0)).max(0.0).sqrt();
+        -1.0 + p - p * p / 3.0 + 11.0 * p * p * p / 72.0
+    } else {
+        x.ln_1p()
+    };
+    for _ in 0..64 {
+        #[cfg(feature = "verif_hooks")]
+        crate::verif_hooks::tick();
+        let exp_w = w.exp();
+        let f = w * exp_w - x;
+        let step = f / (exp_w * (w + 1.0) - (w + 2.0) * f / (2.0 * w + 2.0));
+        if !step.is_finite() {
+            break;
+        }
+        w -= step;
+        if step.abs() <= 1e-15 * w.abs() {
+            break;
+        }
+    }
+    w
+}
+
 pub fn eval(expr: Node) -> Result<Number, Box<dyn error::Error>> {
     #[cfg(feature = "verif_hooks")]
     crate::verif_hooks::tick();
@@ -245,16 +279,7 @@ pub fn eval(expr: Node) -> Result<Number, Box<dyn error::Error>> {
             if sub_expr < -min_one.exp() {
                 return Err("The Lambert W function is not defined for {}.".into());
             }
-            let iterations = (4).max((sub_expr.log10() / 3.0).ceil() as i32);
-            let mut w: f64 = 0.0;
-            for _ in 0..iterations {
-                #[cfg(feature = "verif_hooks")]
-                crate::verif_hooks::tick();
-                let exp_w = w.exp();
-                w -= (w * exp_w - sub_expr)
-                    / (exp_w * (w + 1.0) - (w + 2.0) * (w * exp_w - sub_expr) / (2.0 * w + 2.0));
-            }
-            Ok(Number::Float(w))
+            Ok(Number::Float(lambert_w(sub_expr)))
         }
         ILog(expr1, expr2) => {
             let n = eval(*expr1)?;
